@@ -25,7 +25,7 @@ MODES = (None, "2-point", "3-point", "cs")
 
 def floors(tier):
     return {"fd_runs": 600, "stencil_points_checked": 20000, "value_comparisons": 250, "runs_active_bound_at_optimum": 250,
-            "mode:None": 100, "mode:2-point": 100, "mode:3-point": 100, "mode:cs": 40, "degenerate_side_runs": 40, "settings_leak_checks": 60, "fd_restarts": 200, "problems_with_gradient_scaler": 30, "problems_whose_objective_returns_a_reused_array": 25, "problems_with_nested_finite_difference_run": 20, "__nontrivial__": 200}
+            "mode:None": 100, "mode:2-point": 100, "mode:3-point": 100, "mode:cs": 40, "degenerate_side_runs": 40, "settings_leak_checks": 60, "fd_restarts": 200, "problems_with_gradient_scaler": 30, "problems_with_logger": 40, "problems_whose_objective_returns_a_reused_array": 25, "problems_with_nested_finite_difference_run": 20, "__nontrivial__": 200}
 
 
 def cases(tier, seed):
@@ -38,7 +38,7 @@ def cases(tier, seed):
         yield {"problem": ps, "maxcor": int(rng.integers(1, 9)), "eps": float(gen.pick(rng, [1e-8, 1e-6])),
                "rel": gen.pick(rng, [None, None, 1e-7]), "maxls": int(gen.pick(rng, [5, 20])),
                "scaler": float(np.exp(rng.uniform(np.log(1e-2), np.log(1e2)))) if i % 4 == 1 else None, "split": int(rng.integers(1, 6)),
-               "value_buffer": bool(i % 5 == 2), "nested": bool(i % 6 == 3)}
+               "value_buffer": bool(i % 5 == 2), "nested": bool(i % 6 == 3), "iprint": int(gen.pick(rng, [0, 1, 99, 100, 101])) if i % 3 == 1 else None}
 
 
 def run(spec):
@@ -52,6 +52,9 @@ def run(spec):
         # a gradient scaler multiplies objective and gradient inside the solver: the differencing must be unaffected
         base["scaler"] = sfac = float(spec["scaler"])
         out.count("problems_with_gradient_scaler")
+    if spec.get("iprint") is not None:
+        base.update(logger=True, iprint=spec["iprint"])  # verbose tracing through a user-supplied logger
+        out.count("problems_with_logger")
     if spec.get("value_buffer"):
         # the objective returns its value in one reused one-element array (the differencing must not keep a view of it)
         base["reuse_value_buffer"] = True
